@@ -33,6 +33,9 @@ it says `tr` - every tail ranker, `tailRank` (= the code's `param_pattern_rank`)
   `tailRank_eq_param_rank`     : `tailRank p` IS the rank the same pattern has as the only fixed parameter (one scale).
 * `fixed_arity_beats_variadic_at_equal_specificity` : `f(fixed…, p, …, p)` (k copies) strictly beats
                                  `f(fixed…, *p)` on every call both accept - for every `fixed`, `p`, `k`, labels, outputs.
+* `variadic_shared_variable_charged_per_tail_argument` (concrete witness, as coded): a variable shared by the fixed part
+                                 and the tail is NOT de-duplicated: `f(~T, *~T)` loses against the more general
+                                 `f(~P, ~Q)` and ties with `f(~T, *~U)` (the monitor's `[C19-varspec]`).
 * `tsPatternRank_tail_prefers_less_specific` (counter-lemma; concrete witness): ranking the TAIL with the un-decayed
                                  structural ranker `tsPatternRank` (what `try_match` uses for a `**kwargs` pack) makes the
                                  variadic `f(*TSL[~E,~N])` LOSE against the bare `f(~S)` on a `TSL` argument although
@@ -452,6 +455,25 @@ example : resolveCallV [vSame, vAny, .fixed f3] [.ts (.ts 1), .ts (.ts 2), .ts (
           (∃ s o, resolveCallV [vSame, vAny, .fixed f3] [.ts (.ts 1), .ts (.ts 2), .ts (.ts 2)] = .winner s o ∧
             s.ov = f3 ∧ s.rank = 20000) := by
   refine ⟨by decide, ⟨f3, { ts := [(1, .ts 2), (0, .ts 1)] }, 20000⟩, none, by decide, rfl, rfl⟩
+/-- **what the variadic rank does NOT give** (as coded; the monitor's `[C19-varspec]`).  The tail pattern is ranked in
+    an accumulator of its own, so a variable it SHARES with the fixed part is charged again for every tail argument,
+    and the candidate pays the variadic point on top: on `(TS[int], TS[int])` the candidate `f(~T, *~T)` gets
+    10000 + 10000 + 1 and LOSES against the strictly more general `f(~P, ~Q)` (20000), although the same signature
+    written with fixed arity, `f(~T, ~T)`, ranks 10000 and wins; and it TIES with the more general `f(~T, *~U)`.
+    This is the rank-does-not-respect-instantiation phenomenon of `rank_respects_instantiation_refuted`, here caused by
+    the per-argument tail formula rather than by structure. -/
+theorem variadic_shared_variable_charged_per_tail_argument :
+    survivorOfV [.ts (.ts 1), .ts (.ts 1)] vSame = some ⟨vSame.ov, { ts := [(0, .ts 1)] }, 20001⟩ ∧
+    operatorRank [.input (.var 0 []), .input (.var 0 [])] = 10000 ∧
+    resolveCallV [vSame, .fixed ⟨30, [.input (.var 1 []), .input (.var 2 [])], none, none⟩] [.ts (.ts 1), .ts (.ts 1)]
+      = .winner ⟨⟨30, [.input (.var 1 []), .input (.var 2 [])], none, none⟩, { ts := [(2, .ts 1), (1, .ts 1)] }, 20000⟩ none ∧
+    resolveCallV [.fixed ⟨31, [.input (.var 0 []), .input (.var 0 [])], none, none⟩,
+                  .fixed ⟨30, [.input (.var 1 []), .input (.var 2 [])], none, none⟩] [.ts (.ts 1), .ts (.ts 1)]
+      = .winner ⟨⟨31, [.input (.var 0 []), .input (.var 0 [])], none, none⟩, { ts := [(0, .ts 1)] }, 10000⟩ none ∧
+    (match resolveCallV [vSame, vAny] [.ts (.ts 1), .ts (.ts 1)] with
+     | .ambiguous tied => tied.map (fun s => (s.ov.label, s.rank)) == [(20, 20001), (21, 20001)]
+     | _ => false) = true := by decide
+
 example : (match resolveCallV [vAny, ⟨⟨25, [.input (.var 0 [])], none, none⟩, some (.var 1 [])⟩]
               [.ts (.ts 1), .ts (.ts 2)] with
            | .ambiguous tied => tied.map (fun s => (s.ov.label, s.rank)) == [(21, 20001), (25, 20001)]
